@@ -111,6 +111,11 @@ pub enum Which {
     C01,
     C02,
     C03,
+    C10,
+}
+
+pub fn check_payloads(h: &History, obs: &mut Obs) {
+    check_history(h, Which::C10, obs);
 }
 
 fn policy_state(cfg: &Config, name: &str) -> Option<(BTreeSet<Entry>, BTreeSet<Entry>)> {
@@ -292,6 +297,7 @@ pub fn check_history(h: &History, which: Which, obs: &mut Obs) {
                         nontrivial = true;
                     }
                 }
+                Which::C10 => {}
                 Which::C03 => {
                     if matches!(class, "skipped-failed(installed)" | "installed,annotation-malformed")
                         && was.as_ref().is_some_and(|(a, b)| !a.is_empty() || !b.is_empty())
@@ -336,6 +342,42 @@ pub fn check_history(h: &History, which: Which, obs: &mut Obs) {
             }
             Which::C02 => c02_oracle(r, run, &names, &before, &loads, obs),
             Which::C03 => c03_oracle(r, run, &names, &stmts, &before, &after, &loads, obs),
+            Which::C10 => {
+                for e in &proto {
+                    if e.contains("not well-formed") || e.contains("delimiter") {
+                        obs.fail("agent-request-not-well-formed", format!("run {r}: {e}"));
+                    }
+                }
+                for (text, payload, _) in &loads {
+                    let Some(ps) = payload.path(&["policy-options", "policy-statement"]) else {
+                        obs.fail("agent-payload-shape", format!("run {r}: {text}"));
+                        continue;
+                    };
+                    let name = ps.child("name").map(crate::xmlstrict::Elem::text).unwrap_or_default();
+                    let idx = names.iter().position(|n| *n == name);
+                    let known_name = idx.is_some() && (stmts.iter().any(|s| s.name == name) || before.get(&name).is_some());
+                    if name.contains(['&', '<', '>', '"', '\'']) || name.contains("]]") {
+                        obs.nontrivial = true;
+                    }
+                    if !known_name {
+                        obs.fail(
+                            "policy-name-changed-in-payload",
+                            format!("run {r}: payload names policy {name:?}, which is neither in the running configuration {:?} nor installed {:?}", stmts.iter().map(|s| &s.name).collect::<Vec<_>>(), before.policies.iter().map(|p| &p.name).collect::<Vec<_>>()),
+                        );
+                        continue;
+                    }
+                    if ps.attr("delete").is_none() {
+                        let want = expr_for(idx.unwrap());
+                        match ps.attr("junos:comment") {
+                            Some(c) if c.ends_with(&format!("from mp-filter expression {want}")) => {}
+                            other => obs.fail(
+                                "comment-does-not-carry-the-expression",
+                                format!("run {r}: junos:comment of {name:?} is {other:?}, expected it to end with the expression {want}"),
+                            ),
+                        }
+                    }
+                }
+            }
         }
         // keep going after an oracle failure (it may be a listed known finding; the state the
         // agent produced is still the basis of the following runs) but not after a run that
